@@ -1,9 +1,10 @@
 (* C13 - the part of the event-loop contract that ZMQEventLoop (Model/ZmqLoop.v) satisfies, in the
    vocabulary of SelectLoopSpec.v.  Alarm, idle and select clauses are those of the select loop;
-   the watch clauses are weaker: a watch callback runs only with the callback CURRENTLY registered
-   for its descriptor; nothing is claimed about which descriptors the poller holds (a descriptor
-   registered twice stays in the poller after one removal) nor that a ready batch is served
-   (run() dies with KeyError instead, see zmq_watch_batch_refuted in Properties/C13.v). *)
+   the watch clauses differ: a watch callback runs only with the callback CURRENTLY registered for
+   its descriptor and only for a descriptor the last poll reported; a reported descriptor is served
+   unless its callback was removed; nothing is claimed about which descriptors the poller holds (a
+   descriptor registered twice through two file objects stays in the poller after one removal) nor
+   about the value returned by remove_watch_file. *)
 From Coq Require Import ZArith List Bool.
 Import ListNotations.
 From Urwid Require Import PyBase SelectLoop SelectLoopSpec.
@@ -19,18 +20,39 @@ Fixpoint zwatched (fd : Z) (tr : list event) : option Z :=
   | _ :: r => zwatched fd r
   end.
 
+(* fd was reported readable by the most recent poll *)
+Definition zready_in (fd : Z) (tr : list event) : Prop :=
+  match last_select tr with
+  | Some (_, _, _, ready) => In fd ready
+  | None => False
+  end.
+
+(* every descriptor reported readable by the most recent poll has had its callback called since,
+   unless its callback was removed since or it had no callback when the poll was made (a descriptor
+   registered twice stays in the poller after one removal) *)
+Definition zbatch_done (tr : list event) : Prop :=
+  match last_select tr with
+  | Some (_, _, _, ready) =>
+      forall fd, In fd ready ->
+        (exists id t, In (EWatchCall fd id t) (last_batch tr)) \/
+        (exists ok, In (ERmWatch fd ok) (last_batch tr)) \/
+        zwatched fd (before_select tr) = None
+  | None => True
+  end.
+
 Definition zsel_ok (to : option Z) (t : Z) (older : list event) : Prop :=
   match to with
   | None => forall k d i, ~ pending k d i older
   | Some d => 0 <= d /\ (0 < d -> forall k due i, pending k due i older -> t + d <= due)
   end /\
-  (quiescent to -> idle_done older).
+  (quiescent to -> idle_done older) /\
+  zbatch_done older.
 
 Definition zev_ok (e : event) (older : list event) : Prop :=
   match e with
   | EWatchSet _ _ => True
   | ERmWatch _ _ => True
-  | EWatchCall fd id t => zwatched fd older = Some id
+  | EWatchCall fd id t => zwatched fd older = Some id /\ zready_in fd older
   | ESelect to regs t ready => zsel_ok to t older
   | _ => ev_ok e older
   end.
